@@ -40,7 +40,7 @@ WINDOWS = 3        # the aligned window is [0, WINDOWS*DUR)
 # ---------------------------------------------------------------------------------------------------------------
 JSON_LINES = [
     dict(t='J1', cls='flat', jf={'x': '1', 'y': 'a'},
-         v=['{"x":"1","y":"a"}', '{ "y" : "a" ,\t"x" : "1" }', '{"x":"\\u0031","y":"a","k":[1,2,{"x":"7"}]}', '{"y":"a","x":"1","e":""}']),
+         v=['{"x":"1","y":"a"}', '{ "y" : "a" ,\t"x" : "1" }', '{"x":"\\u0031","y":"a","k":[1,2,{"x":"7"}]}']),
     dict(t='J2', cls='flat', jf={'x': '2', 'y': 'b', 'm': '--NEEDLE--'},
          v=['{"x":2,"y":"b","m":"--NEEDLE--"}', '{"m":"--NEEDLE--", "x": 2 , "y":"b"}']),
     dict(t='J3', cls='nested', jf={'x': '3', 'n_y': 'a', 'f': 'true'},
@@ -54,6 +54,7 @@ JSON_LINES = [
     dict(t='J9', cls='flat', jf={'x': '-0.5e1', 'x_k': '1'}, v=['{"x":"-0.5e1","x-k":"1"}', '{"x.k":"1","x":"-0.5e1"}']),
     dict(t='J10', cls='flat', jf={'x': '0', 'y': 'a'}, v=['{"x":"0","y":"a"}', '{"x":0,"y":"a"}']),
     dict(t='J11', cls='flat', jf={'x': '2', 'y': 'a'}, v=['{"x":"2","y":"a"}', '{"y":"a","x":2}']),
+    dict(t='J12', cls='flat', jf={'x': '1', 'y': 'a', 'e': '@empty'}, v=['{"y":"a","x":"1","e":""}', '{"e":"","x":"1","y":"a"}']),
     dict(t='JC1', cls='flat', jf={'x': 'y1'}, v=['{"x":"y1"}']),
     dict(t='JC2', cls='flat', jf={'xy': '1'}, v=['{"xy":"1"}']),
 ]
@@ -66,7 +67,8 @@ LOGFMT_LINES = [
     dict(t='F6', cls='logfmt', lf={'y': 'a'}, v=['y=a', 'y=a ']),
 ]
 SERIES = [{'a': 'b'}, {'a': 'b', 'x': '9'}, {'a': 'b', 'z': 'q'}]
-NAMES = ['a', 'x', 'y', 'm', 'n_y', 'f', 'x_k', 'xy', 'z', 'q']
+NAMES = ['a', 'x', 'y', 'm', 'n_y', 'f', 'x_k', 'xy', 'z', 'q', 'e']
+EMPTY = '@empty'     # InProc!IP_Empty
 NUM = {'0': 0, '1': 1, '2': 2, '3': 3, '9': 9, '-0.5e1': -5}
 GRIDS = [[1, 4, 12, 13, 27], [3, 12, 14, 25, 28]]
 
@@ -312,6 +314,34 @@ def gen_cases(tier, seed):
         cases.append({'id': 'c%05d' % len(cases), 'pl': pi + 1, 'es': es, 'cut': cut, 'alts': alts, 'eof': eof, 'lim': lim, 'fwd': fwd})
 
     span = DUR * WINDOWS
+    # (0) directed cases: one small witness per as-coded switch of the specification, whatever the seed
+    pidx = {p['id']: i for i, p in enumerate(PIPELINES)}
+    S1, S2, S3 = SERIES
+
+    def E(lb, ts, ln):
+        return {'lb': lb, 'ts': ts, 'ln': ln}
+    for pid, es, cut, eof, lim, fwd in [
+        ('json', [E(S1, 1, 'J1'), E(S1, 2, 'J2')], [1, 1], True, 0, True),                      # limit0
+        ('json', [E(S1, 1, 'J1'), E(S1, 2, 'J4'), E(S1, 3, 'J2')], [1, 2], True, 7, True),      # parse_abort
+        ('json', [E(S1, 1, 'J1'), E(S1, 2, 'J5'), E(S1, 3, 'J2')], [2, 1], False, 7, True),
+        ('json_eq', [E(S1, 1, 'J1'), E(S1, 2, 'J4'), E(S1, 3, 'J1')], [1, 2], True, 7, True),   # + marker_eval: swallowed
+        ('logfmt', [E(S1, 1, 'F1'), E(S1, 2, 'F4'), E(S1, 3, 'F2')], [1, 2], True, 7, True),
+        ('json', [E(S1, 1, 'J1'), E(S1, 2, 'J12')], [2], True, 7, True),                        # empty_label
+        ('m_rate', [E(S1, 1, 'J12'), E(S1, 2, 'J1')], [1, 1], True, 0, True),
+        ('json', [E(S1, 1, 'JC1'), E(S1, 2, 'JC2')], [2], True, 7, True),                       # fp_concat
+        ('m_rate', [E(S1, 1, 'JC1'), E(S1, 2, 'JC2')], [1, 1], True, 0, True),
+        ('json_lfmt_ren', [E(S3, 1, 'J7'), E(S1, 2, 'J1')], [2], False, 7, True),               # lfmt_src
+        ('json_lfmt_ren', [E(S3, 1, 'J1'), E(S1, 2, 'J1')], [2], False, 7, True),               # fp_stale
+        ('linefmt_drop', [E(S1, 1, 'J1'), E(S2, 2, 'J1')], [1, 1], True, 7, True),
+        ('json_lfmt_const', [E(S1, 1, 'J1')], [1], True, 7, True),                              # lfmt_nil
+        ('json_lfmt_const', [E(S1, 1, 'J1')], [1], False, 7, True),
+        ('m_min_by', [E(S1, 1, 'J1'), E(S1, 2, 'J11'), E(S1, 3, 'J10')], [2, 1], True, 0, True),    # min_is_max
+        ('m_first_by', [E(S1, 1, 'J10'), E(S1, 2, 'J1'), E(S1, 3, 'J11')], [3], True, 0, True),     # first_nonzero
+        ('m_first_by', [E(S1, 3, 'J11'), E(S1, 2, 'J1')], [1, 1], True, 0, False),
+        ('m_last_by', [E(S1, 3, 'J11'), E(S1, 2, 'J1')], [1, 1], True, 0, False),                   # last_arrival
+        ('m_last_by', [E(S1, 2, 'J1'), E(S1, 3, 'J11')], [2], True, 0, True),
+    ]:
+        add(pidx[pid], es, cut, eof, lim, fwd)
     for pi, p in enumerate(PIPELINES):
         lims = [0] if is_metric(p) else [0, 1, 2, 7]
         series = [SERIES[i - 1] for i in p['series']]
@@ -347,26 +377,29 @@ CONSTANTS
   MaxMsgs = %(maxmsgs)d
   PlFrom = %(plfrom)d
   PlTo = %(plto)d
+  Lims = %(lims)s
 INVARIANTS Thm_BatchingIndependent Thm_LimitMeaning Thm_SeriesIdentity
 CHECK_DEADLOCK FALSE
 '''
 
 
-def tlc_thm(gen_path, maxn, maxmsgs, timeout, workers):
+def tlc_thm(gen_path, maxn, maxmsgs, lims, timeout, workers):
     sd = vlib.scratch('c09thm')
     try:
         cfgp = os.path.join(sd, 'MC_InProc_run.cfg')
-        open(cfgp, 'w').write(THM_CFG % {'maxn': maxn, 'maxmsgs': maxmsgs, 'plfrom': 1, 'plto': len(PIPELINES)})
-        res = vlib.tlc(SPECDIR, 'MC_InProc.tla', 'MC_InProc_run.cfg', workers=workers, timeout=timeout, copy_extra=[cfgp, gen_path], coverage=True)
+        open(cfgp, 'w').write(THM_CFG % {'maxn': maxn, 'maxmsgs': maxmsgs, 'plfrom': 1, 'plto': len(PIPELINES), 'lims': lims})
+        res = vlib.tlc(SPECDIR, 'MC_InProc.tla', 'MC_InProc_run.cfg', workers=workers, timeout=timeout, copy_extra=[cfgp, gen_path])
         try:
             if res['violated']:
                 raise vlib.Infra('C09 theorem violated on the specification itself (%s): the spec is wrong, not the code\n%s'
                                  % (res['violated'], res['out'][-3000:]))
             if not res.get('finished') or 'No error has been found' not in res['out']:
                 raise vlib.Infra('TLC did not finish MC_InProc:\n' + res['out'][-2000:])
-            zero = [a for a in vlib.coverage_zero_actions(res['out']) if a in ('PickEntries', 'PickTransport', 'Init')]
-            if zero:
-                raise vlib.Infra('vacuous: actions never taken: %s' % zero)
+            # vacuity (-coverage makes this model 20x slower): both actions were taken iff the search went three levels deep, and
+            # every pipeline must have contributed complete cases
+            m = re.search(r'The depth of the complete state graph search is (\d+)', res['out'])
+            if not m or int(m.group(1)) != 3 or res.get('distinct', 0) < 100 * len(PIPELINES):
+                raise vlib.Infra('vacuous theorem run: depth %s, %s states' % (m and m.group(1), res.get('distinct')))
             return {'states': res.get('distinct', 0), 'generated': res.get('generated', 0), 'wall_s': round(res['wall'], 1)}
         finally:
             vlib.tlc_cleanup(res)
@@ -429,7 +462,11 @@ def export_sharded(gen_path, cases, shards, timeout):
 
 def obs_json(o):
     """TLC's result record -> plain JSON for the driver (labels without the absent ones)"""
-    return {'k': o['k'], 'streams': [{'lb': {k: v for k, v in st['lb'].items() if v != ''}, 'vals': st['vals']} for st in o['streams']]}
+    return {'k': o['k'], 'streams': [{'lb': {k: v for k, v in st['lb'].items() if v not in ('', EMPTY)}, 'vals': st['vals']} for st in o['streams']]}
+
+
+def canon(o):
+    return (o['k'], sorted((sorted(st['lb'].items()), json.dumps(st['vals'])) for st in o['streams']))
 
 
 def chain_casefile(cases, outs, conc, seed):
@@ -438,10 +475,12 @@ def chain_casefile(cases, outs, conc, seed):
         if c['id'] != o['id']:
             raise vlib.Infra('export out of order: %s vs %s' % (c['id'], o['id']))
         p = PIPELINES[c['pl'] - 1]
+        exp, preds = obs_json(o['exp']), [obs_json(x) for x in o['preds']]
+        # a prediction that differs from the expectation only by labels with the empty value is no observable difference
+        agree = all(canon(x) == canon(exp) for x in preds)
         cs.append({'id': c['id'], 'pid': p['id'], 'q': p['q'], 'metric': is_metric(p), 'es': c['es'], 'cut': c['cut'], 'eof': c['eof'],
-                   'alts': c['alts'], 'lim': c['lim'], 'fwd': c['fwd'], 'exp': obs_json(o['exp']), 'preds': [obs_json(x) for x in o['preds']],
-                   'agree': o['agree'],
-                   'causes': sorted(o['causes'])})
+                   'alts': c['alts'], 'lim': c['lim'], 'fwd': c['fwd'], 'exp': exp, 'preds': preds,
+                   'agree': agree, 'causes': [] if agree else sorted(o['causes'])})
     return {'conc': conc, 'dur_s': DUR, 'windows': WINDOWS, 'seed': seed, 'cases': cs}
 
 
@@ -459,6 +498,8 @@ QUIRK_TEXT = {
     'fp_concat': 'hash.go fingerprint hashes k+v without a separator: label sets with equal concatenations are one series',
     'fp_stale': 'drop recomputes the fingerprint only when it removed something and label_format never does: equal label sets end up with '
                 'different fingerprints (stored series fingerprint vs hash.go), one series is split',
+    'empty_label': 'a JSON/logfmt field with the empty value becomes a label with the empty value that takes part in the fingerprint '
+                   '(planner_parser_json.go:33): one label set - an empty label is no label - is split in two series',
     'min_is_max': 'min_over_time uses the comparison of max_over_time (planner_unwrap_agg.go:39)',
     'first_nonzero': 'first_over_time takes the first NON-ZERO value in arrival order (planner_unwrap_agg.go:44), not the value with the smallest timestamp',
     'last_arrival': 'last_over_time takes the last value in arrival order (planner_unwrap_agg.go:49); entries arrive newest first unless direction=forward',
@@ -466,36 +507,39 @@ QUIRK_TEXT = {
 
 
 def chain_violations(cf, res):
-    """one violation per structural signature, with the smallest failing case as the replay"""
+    """one violation per confirmed as-coded deviation (cause), with the smallest failing case as the replay; mismatches the
+    transcription does not predict get a signature of their own (pipeline + structural kind of difference)"""
     byid = {c['id']: c for c in cf['cases']}
     groups = {}
     for m in res.get('mismatches') or []:
         c = byid[m['id']]
         kinds = '+'.join(m.get('diff_kinds') or [m.get('kind', '?')])
         if c['causes'] and m.get('match_pred'):
-            sig = 'C09/chain/as-transcribed/' + '+'.join(c['causes']) + '/' + kinds
-        elif c['causes']:
-            sig = 'C09/chain/near-transcribed/' + '+'.join(c['causes']) + '/' + c['pid'] + '/' + kinds
+            for q in c['causes']:
+                groups.setdefault('C09/inproc/' + q, []).append((len(c['causes']), len(c['es']), m, c, kinds))
         else:
-            sig = 'C09/chain/unexplained/' + c['pid'] + '/' + kinds
-        groups.setdefault(sig, []).append((len(c['es']), m, c))
+            groups.setdefault('C09/inproc/unpredicted/' + c['pid'] + '/' + kinds, []).append((0, len(c['es']), m, c, kinds))
     out = []
     for sig, lst in sorted(groups.items()):
-        lst.sort(key=lambda x: (x[0], x[2]['id']))
-        n, m, c = lst[0]
-        why = '; '.join(QUIRK_TEXT.get(q, q) for q in c['causes']) or 'no transcribed deviation explains it'
+        lst.sort(key=lambda x: (x[0], x[1], x[3]['id']))
+        _, n, m, c, kinds = lst[0]
+        q = sig.split('/')[-1]
+        why = QUIRK_TEXT.get(q, 'the transcription of the code in InProc.tla does not predict this result')
         ups = [{'labels': e['lb'], 'ts_s': e['ts'], 'line': cf['conc'].get(e['ln'], e['ln'])} for e in c['es']]
+        allkinds = sorted(set(x[4] for x in lst))
         replay = vlib.save_replay('C09', re.sub(r'[^A-Za-z0-9_+-]+', '_', sig)[:150],
                                   {'signature': sig, 'query': c['q'], 'limit': c['lim'], 'forward': c['fwd'], 'eof_marker': c['eof'],
                                    'partition': c['cut'], 'upstream_entries': ups, 'expected': c['exp'], 'predicted_as_coded': c['preds'][0],
                                    'observed': m.get('obs'), 'observed_other_partitions': m.get('part_obs'), 'other_partitions': m.get('part_cuts'),
                                    'plan': m.get('plan'), 'stderr': m.get('stderr'), 'causes': c['causes'], 'cases_with_this_signature': len(lst),
-                                   'replay_cmd': 'c09 chain -cases <file with this case>', 'case': c})
+                                   'kinds_of_difference': allkinds, 'case': c, 'conc': cf['conc'], 'dur_s': cf['dur_s'], 'windows': cf['windows'],
+                                   'seed': cf['seed']})
         obs = m.get('obs') or {}
         out.append({'property': 'C09', 'signature': sig,
-                    'msg': '%s (limit=%d, %d upstream entries in messages %s%s): expected %s, the real chain gave %s%s [%d cases] - %s'
+                    'msg': '%s (limit=%d, %d upstream entries in messages %s%s): expected %s, the real chain gave %s%s [%d cases; %s] - %s'
                            % (c['q'], c['lim'], len(c['es']), c['cut'], ' + end marker' if c['eof'] else '', short_obs(c['exp']),
-                              short_obs(obs), ' (other partitions give other results)' if m.get('part_obs') else '', len(lst), why),
+                              short_obs(obs), ' (other partitions of the same entries give other results)' if m.get('part_obs') else '',
+                              len(lst), ', '.join(allkinds), why),
                     'replay': replay})
     return out
 
@@ -545,7 +589,7 @@ def run(tier):
 
         ncpu = os.cpu_count() or 4
         # the theorem on the specification, the export, and the build run side by side
-        th = [guard('thm', tlc_thm, gen_path, 2 if quick else 3, 2 if quick else 3, 80 if quick else 780, max(2, ncpu // 2)),
+        th = [guard('thm', tlc_thm, gen_path, 2 if quick else 3, 2, '{0, 1, 3}' if quick else '{0, 1, 2, 4}', 150 if quick else 840, max(2, ncpu // 2)),
               guard('exp', export_sharded, gen_path, cases, 3 if quick else 6, 80 if quick else 600),
               guard('bin', vlib.go_build, 'cmd/c09', 'c09')]
         for t in th:
@@ -583,7 +627,15 @@ def run(tier):
                 raise vlib.Infra('c09 cross failed: ' + (r.stderr or r.stdout)[-2000:])
             return json.load(open(crossp))
 
-        th = [guard('chain', run_chain), guard('cross', run_cross)]
+        def run_latent():
+            """informational: a window that is no multiple of the range (never passed by Plan(): FixPeriodPlanner aligns it) makes
+            LRAPlanner index past its array; the panic is not recovered (TamePanic is called from a nested frame) and kills the process"""
+            r = vlib.run_cmd([binp, 'probe', '-inner', '-q', 'count_over_time({a="b"} | json [10s])', '-e', '1|{"x":"0"}', '-e', '22|{"x":"1"}',
+                              '-eof', '-to', '25'], timeout=60, env=env)
+            return {'exit': r.returncode, 'panic': ('panic:' in (r.stderr or '')),
+                    'first_line': ((r.stderr or '').strip().splitlines() or [''])[0][:160]}
+
+        th = [guard('chain', run_chain), guard('cross', run_cross), guard('latent', run_latent)]
         for t in th:
             t.join()
         if errs:
@@ -603,7 +655,7 @@ def run(tier):
             'samples': [{'query': sample['q'], 'limit': sample['lim'], 'partition': sample['cut'], 'eof': sample['eof'],
                          'upstream': [{'labels': e['lb'], 'ts': e['ts'], 'line': conc.get(e['ln'], e['ln'])} for e in sample['es']],
                          'expected': sample['exp'], 'predicted_as_coded': sample['preds'][0]}],
-            'theorem': {'bounds': {'max_entries': 2 if quick else 3, 'max_messages': 2 if quick else 3, 'pipelines': len(PIPELINES)},
+            'theorem': {'bounds': {'max_entries': 2 if quick else 3, 'max_messages': 2, 'pipelines': len(PIPELINES)},
                         'states': thm['states'], 'wall_s': thm['wall_s'],
                         'invariants': ['Thm_BatchingIndependent', 'Thm_LimitMeaning', 'Thm_SeriesIdentity']},
             'export': {'cases': len(cases), 'wall_s': round(exp_wall, 1)},
@@ -612,6 +664,7 @@ def run(tier):
                       'candidates_confirmed_on_code': chain['confirmed'], 'code_as_transcribed': chain['pred_agree'],
                       'code_differs_from_transcription': chain['pred_differ'], 'worker_crashes': chain['crashes']},
             'cross': {k: v for k, v in cross.items() if k in ('queries', 'pairs', 'pairs_equal', 'pairs_differ', 'datasets', 'died', 'unsupported')},
+            'latent_unaligned_window_probe': box.get('latent'),
             'wall_s': round(time.time() - t0, 1),
         }
         if chain['cases'] - chain['candidates'] < 50:
@@ -624,10 +677,19 @@ def run(tier):
                     'label overrides a stream label, label_format keeps its source, a label with the empty value is absent',
                     'regular expressions in the cases are anchored (anchoring of =~ is C07/C08 territory)',
                     'ResponseOptimizerPlanner flush at 3000 held entries and the 2000-series cap of the aggregators are outside the bounds',
+                    'a vector aggregation without by/without keeps the series apart in BOTH engines (LogQL: one series): taken as the definition here',
                     'cross-engine runs use chsql as the SQL engine'],
                 }
     finally:
         shutil.rmtree(sd, ignore_errors=True)
+
+
+CROSS_TEXT = {
+    'limit-absent-or-0': 'with no limit parameter (or limit=0) the formulation that runs in process returns nothing while the SQL formulation '
+                         'returns the entries: planner_limit.go vs planner_main_limit.go',
+    'undecodable-line': 'stored lines that json cannot decode: the SQL engine keeps them (nothing extracted), the in-process engine ends the '
+                        'stream - the HTTP response is a success with the entries seen so far (or none)',
+}
 
 
 def cross_violations(cross):
@@ -638,17 +700,38 @@ def cross_violations(cross):
         rp = vlib.save_replay('C09', re.sub(r'[^A-Za-z0-9_+-]+', '_', sig), cross)
         out.append({'property': 'C09', 'signature': sig, 'msg': 'the reader process died (unrecovered panic) while answering %s' % cur, 'replay': rp})
         return out
+    ds = cross.get('disagreements') or []
+    # pairs that disagree on the clean data with a limit given: their own signature
+    own = set(d['pair'] for d in ds if d['dataset'] == 'clean' and not (d['limit'] in ('absent', '0') and d['kind'] == 'inproc-empty'))
     groups = {}
-    for d in cross.get('disagreements') or []:
-        groups.setdefault(d['signature'], []).append(d)
+    for d in ds:
+        nolimit = d['limit'] in ('absent', '0')
+        if d['kind'] == 'sql-error':
+            sig = 'C09/cross/%s/sql-error' % d['pair']
+        elif nolimit and d['kind'] == 'inproc-empty' and not d.get('metric'):
+            sig = 'C09/cross/limit-absent-or-0'
+        elif d['pair'] in own:
+            if d['dataset'] != 'clean':
+                continue
+            sig = 'C09/cross/%s/results-differ' % d['pair']
+        elif d['dataset'] == 'hostile':
+            sig = 'C09/cross/undecodable-line'
+        else:
+            sig = 'C09/cross/%s/results-differ' % d['pair']
+        groups.setdefault(sig, []).append(d)
     for sig, lst in sorted(groups.items()):
+        lst.sort(key=lambda d: (len(d.get('sql_short', '')) + len(d.get('inproc_short', ''))))
         d = lst[0]
-        rp = vlib.save_replay('C09', re.sub(r'[^A-Za-z0-9_+-]+', '_', sig)[:150], {'signature': sig, 'first': d, 'count': len(lst), 'all': lst[:20]})
+        rp = vlib.save_replay('C09', re.sub(r'[^A-Za-z0-9_+-]+', '_', sig)[:150], {'signature': sig, 'first': d, 'count': len(lst),
+                                                                               'all': [{k: v for k, v in x.items() if k != 'stored'} for x in lst[:20]]})
+        why = CROSS_TEXT.get(sig.split('/')[2], '')
         out.append({'property': 'C09', 'signature': sig,
-                    'msg': 'same stored data (%s), limit %s, %s: SQL formulation %s -> %s ; in-process formulation %s -> %s [%d requests]'
-                           % (d['dataset'], d['limit'], d['direction'], d['sql_query'], d['sql_short'], d['inproc_query'], d['inproc_short'], len(lst)),
+                    'msg': 'same stored data (%s), limit %s, direction %s: SQL formulation %s -> %s ; in-process formulation %s -> %s [%d requests]%s'
+                           % (d['dataset'], d['limit'], d['direction'] or 'default', d['sql_query'], d['sql_short'][:300], d['inproc_query'],
+                              d['inproc_short'][:300], len(lst), (' - ' + why) if why else ''),
                     'replay': rp})
     return out
+
 
 if __name__ == '__main__':
     import sys
